@@ -32,8 +32,21 @@ def gen_dump(rng, static_map):
         for _ in range(rng.randrange(2, 5)):
             prog += H.scenario(rng, keyspace, kinds=STATIC_KINDS if static_map else None, private_keys=True)
         programs.append(prog)
+    all_tids = list(tids)
+    if rng.random() < 0.5:
+        # a thread the dump never declares (its lines read 'Error: tid ...'), doing ordinary calls; reaper-style terminate
+        # records of declared threads name it (they declare nothing)
+        prog = []
+        for _ in range(rng.randrange(1, 4)):
+            prog += H.scenario(rng, {'tid': 99, 'pid': 900, 'sid': 9000}, kinds=('syscall', 'path', 'single'), private_keys=True)
+        programs.append(prog)
+        all_tids.append(99)
+        for t in range(len(tids)):
+            if rng.random() < 0.6:
+                programs[t].insert(rng.randrange(len(programs[t]) + 1),
+                                   H.A('TRACE_DATA_THREAD_TERMINATE', H.NONE, (99, 0, 0, 0)))
     order = H.random_interleaving(rng, programs)
-    events = H.materialize([(tids[t], programs[t][i]) for t, i in order], t0=0x100000001)
+    events = H.materialize([(all_tids[t], programs[t][i]) for t, i in order], t0=0x100000001)
     # the thread map declares the same pid the thread's own records (sampler thread data, terminate-pid) carry, so
     # that dropping records of a non-requested class cannot change the tables a requested decoder reads
     entries = [(tid, 100 * (i + 1), b'proc%d' % i, b'') for i, tid in enumerate(tids)]
@@ -50,6 +63,14 @@ def gen_config(rng, dump, with_process):
     as_tuple = rng.random() < 0.25
     proc = rng.choice((None, None, 'proc0', 'proc1', '100', '200', '101', 'nosuch', 'proc', 'roc1', '10', '', 'launchd',
                        'Safari', 'kernel_task', '/usr/lib/dyld', '11', '12', '-1', '0')) if with_process else None
+    if with_process and proc is not None and rng.random() < 0.5:
+        # a name the dump itself teaches (exec / new-thread name strings): the process a thread belongs to changes while
+        # the stream is read
+        codes = ev.bundled_codes()
+        learned = [e.data.replace(b'\x00', b'').decode() for e in dump['events']
+                   if codes.get(e.eventid) in ('TRACE_STRING_EXEC', 'TRACE_STRING_NEWTHREAD')]
+        if learned:
+            proc = rng.choice(learned)
     return {'tid': tid, 'classes': tuple(classes) if as_tuple else list(classes),
             'subs': tuple(subs) if as_tuple else list(subs), 'process': proc}
 
@@ -126,6 +147,14 @@ def check(res, rng, dump, cfg, unfiltered, other_dump):
              f'process={cfg["process"]!r}')
     res.case((dump['data'], repr(cfg), tuple(requests)))
     res.count('configurations')
+    same_stream = io.BytesIO(dump['data'])        # half of the histories re-read ONE stream object, rewound
+    reuse_stream = rng.random() < 0.5
+
+    def stream_of(d):
+        if reuse_stream and d is dump:
+            same_stream.seek(0)
+            return same_stream
+        return io.BytesIO(d['data'])
     for i, req in enumerate(requests):
         src = dump
         if req == 'traces' and i > 0 and rng.random() < 0.3 and other_dump is not None:
@@ -137,7 +166,7 @@ def check(res, rng, dump, cfg, unfiltered, other_dump):
                 return
         try:
             if req == 'traces':
-                got = [key(t) for t in p.traces(io.BytesIO(src['data']))]
+                got = [key(t) for t in p.traces(stream_of(src))]
                 if optional:
                     # traces for which either answer is accepted are judged as the tool judged them
                     gs = set(got)
@@ -152,7 +181,7 @@ def check(res, rng, dump, cfg, unfiltered, other_dump):
                     return
                 res.count('trace_requests_compared')
             elif req == 'formatted_traces':
-                lines = list(p.formatted_traces(io.BytesIO(src['data'])))
+                lines = list(p.formatted_traces(stream_of(src)))
                 if optional and len(lines) != len(want):
                     res.count('formatted_requests_with_optional_traces_skipped')
                     continue
@@ -169,7 +198,7 @@ def check(res, rng, dump, cfg, unfiltered, other_dump):
                     return
                 res.count('formatted_requests_compared')
             else:
-                list(p.callstacks(io.BytesIO(src['data'])))
+                list(p.callstacks(stream_of(src)))
                 res.count('callstack_requests')
         except Exception as x:
             res.violation(f'c13-raises-{core.exc_name(x)}', f'{label}, request {i + 1} ({req}): {x!r} at {core.short_tb(x)}',
